@@ -63,7 +63,7 @@ def config_json(sc):
             "total_arrays": sc['arrays'], "max_ingest_resources": sc['max_ingest'],
             "pipelines": pipelines, "observations": obs_cfg}},
         "cluster": {"header": {}, "system": {
-            "resources": {f"m{i}": {"flops": m['flops'], "compute_bandwidth": m['bw']}
+            "resources": {machine_name(sc, i): {"flops": m['flops'], "compute_bandwidth": m['bw']}
                           for i, m in enumerate(sc['machines'])},
             "system_bandwidth": 1.0}},
         "buffer": {"hot": {"capacity": sc['hot']['capacity'], "max_ingest_rate": sc['hot']['rate']},
@@ -85,6 +85,12 @@ def write_files(sc, d):
     return p
 
 
+def machine_name(sc, i):
+    """id of the i-th machine in configuration order (default m0, m1, ...; 'mnames' lists them otherwise)"""
+    names = sc.get('mnames')
+    return names[i] if names else f"m{i}"
+
+
 # ---------------------------------------------------------------- derived quantities (in timesteps)
 
 def steps(sc, seconds):
@@ -104,7 +110,7 @@ def serial_bound(sc, latency=3):
     u = unit_factor(sc.get('unit', 'seconds'))
     min_cpu = min(m['flops'] for m in sc['machines']) * u
     min_bw = min(m['bw'] for m in sc['machines']) * u
-    b = max(o['start'] for o in sc['obs']) // u
+    b = math.ceil(max(o['start'] for o in sc['obs']) / u)
     for o in sc['obs']:
         b += math.ceil(o['duration'] / u) + latency
         for n in o['wf']['nodes']:
@@ -166,7 +172,7 @@ def scenarios(draw, *, max_machines=6, max_obs=4, max_nodes=6,
               modes=('roomy', 'band'), delays=False, units=False,
               adversary=False, delay_model=False, min_obs=1,
               start_gaps=(0, 0, 0, 1, 1, 2, 3, 5, 10), max_duration=6,
-              few_machines=False, piled_plans=False, overlap=False, limit_binds=False, unsorted=False, long_durations=False, b2b=False, twins=False, abs_est=False, zero_rate=False, frac_duration=False):
+              few_machines=False, piled_plans=False, overlap=False, limit_binds=False, unsorted=False, long_durations=False, b2b=False, twins=False, abs_est=False, zero_rate=False, frac_duration=False, frac_start=False, odd_names=False):
     nm = draw(st.integers(2 if overlap else 1, 3 if few_machines else max_machines))
     hetero = draw(st.booleans())
     speeds = (1, 2, 5, 10, 20)
@@ -251,7 +257,11 @@ def scenarios(draw, *, max_machines=6, max_obs=4, max_nodes=6,
             # a length in seconds that is not a whole number of timesteps (the parser divides, it does not round): the
             # telescope and the ingest stream then run for ceil(duration) steps
             dur_s += draw(st.integers(1, u - 1))
-        o = {"name": names[i], "start": t * u, "duration": dur_s, "demand": demand,
+        start_s = t * u
+        if frac_start and u > 1 and mode == 'roomy' and draw(st.booleans()):
+            # planned for a second that is not on a step boundary: the first step at or after it is "on time"
+            start_s += draw(st.integers(1, u - 1))
+        o = {"name": names[i], "start": start_s, "duration": dur_s, "demand": demand,
              "rate": rate, "ingest": draw(st.integers(1, min(max_ingest, (max(1, max_ingest // 2) if overlap else max_ingest)
                                                                  if not limit_binds else draw(st.sampled_from([1, 1, 2]))))),
              "wf": draw(dags(max_nodes=max_nodes,
@@ -313,6 +323,11 @@ def scenarios(draw, *, max_machines=6, max_obs=4, max_nodes=6,
             for n in o["wf"]["nodes"]:
                 if draw(st.integers(0, 3)) == 0:
                     sc["delays"][f"{o['name']}:{n['id']}"] = draw(st.sampled_from([1, 1, 2, 3, 7]))
+    if odd_names and draw(st.booleans()):
+        # machine ids whose order in the configuration differs from their alphabetical order
+        pool = draw(st.sampled_from([[f"m{i}" for i in range(nm)], ['slow', 'fast', 'medium', 'gpu', 'aux', 'z9'][:nm],
+                                     [f"m{i}" for i in range(8, 8 + nm)]]))
+        sc["mnames"] = list(draw(st.permutations(pool)))
     if abs_est and draw(st.booleans()):
         # a static planner that states the workflow's estimated start on the simulation clock (planning time + observation
         # length + slack) instead of relative to the observation: later workflows then really do begin "on time"
